@@ -3,6 +3,7 @@ package props
 import (
 	"bytes"
 	"context"
+	"errors"
 	"fmt"
 	"io"
 	"sort"
@@ -80,6 +81,8 @@ func c18Letters(limit int) []c18Letter {
 		return pgproto.Cat(pgproto.Parse("t", "later"), pgproto.Bind("t", "t", nil, vals, nil), pgproto.Execute("t", 0), pgproto.Sync())
 	}
 	ls = append(ls,
+		c18Letter{"failing Execute, then discarded Flush/Close/Flush, Sync", pgproto.Cat(pgproto.Parse("f", "later-fail A"), pgproto.Bind("f", "f", nil, [][]byte{filler(40, 60)}, nil), pgproto.Execute("f", 0), pgproto.Flush(), pgproto.Close('P', "nothing"), pgproto.Flush(), pgproto.Sync())},
+		c18Letter{"failing COPY query, pipelined CopyDone + stray Sync", pgproto.Cat(pgproto.Query("cp-fail"), pgproto.CopyDone(), pgproto.Sync(), pgproto.CopyDone())},
 		c18Letter{fmt.Sprintf("COPY%v", copyA), burst(copyA, 50)},
 		c18Letter{fmt.Sprintf("COPY%v", copyB), burst(copyB, 53)},
 		c18Letter{fmt.Sprintf("Parse+Bind%v+Execute+Sync", bindA), batch(bindA, 56)},
@@ -181,7 +184,19 @@ func c18Run(limit int, hist []c18Letter) explore.Result {
 		if strings.HasPrefix(q, "first-") {
 			st.keepMap("client parameters (parser)", wire.ClientParameters(ctx))
 		}
+		if q == "cp-fail" {
+			st.keepString("query text cp-fail", q)
+			return wire.Prepared(wire.NewStatement(func(ctx context.Context, w wire.DataWriter, p []wire.Parameter) error {
+				return errors.New("the COPY statement fails before it starts copying")
+			}, wire.WithColumns(wire.Columns{{Name: "a", Oid: 25}}))), nil
+		}
 		return wire.Prepared(wire.NewStatement(func(ctx context.Context, w wire.DataWriter, params []wire.Parameter) error {
+			if strings.HasPrefix(q, "later-fail") {
+				for i, p := range params {
+					st.keepBytes(fmt.Sprintf("bind parameter %d of %s", i, clip(q)), p.Value())
+				}
+				return errors.New("statement fails inside the callback")
+			}
 			if keep && q == "first-parse" {
 				reexec = reexec[:0]
 				for _, p := range params {
@@ -276,10 +291,10 @@ func init() {
 		ID:        "C18",
 		Level:     "model_checking",
 		Technique: "exhaustive enumeration of later-traffic histories over message sizes around the 4 KiB allocation granule and the message limit, on a real server whose callbacks retain (without copying) everything they were handed next to a private clone; invariant checked after every message",
-		Rule:      "first phase retains startup parameters (validator + parser), database / user / password, a Query text, a Parse text and two Bind values; then every history of length <= d over 15 (limit 8192) / 14 (limit 1024, below the 4 KiB allocation granule) letters: Query bodies around the granule and the limit, oversized-and-skipped messages of several sizes, two COPY bursts (incl. an oversized CopyData), two Bind batches",
+		Rule:      "first phase retains startup parameters (validator + parser), database / user / password, a Query text, a Parse text and two Bind values; then every history of length <= d over 17 (limit 8192) / 16 (limit 1024, below the 4 KiB allocation granule) letters: Query bodies around the granule and the limit, oversized-and-skipped messages of several sizes, two COPY bursts (incl. an oversized CopyData), two Bind batches",
 		Assumptions: []string{"CopyData payload views are not retained: the statement lists query texts, parameter values, client parameters and passwords"},
 		Enumerate:   c18Enumerate,
-		Bounds:      func(tier string) map[string]any { return map[string]any{"history_depth": c18Depth(tier), "letters": []int{15, 14}, "limits": []int{c18Limit, 1024}} },
+		Bounds:      func(tier string) map[string]any { return map[string]any{"history_depth": c18Depth(tier), "letters": []int{17, 16}, "limits": []int{c18Limit, 1024}} },
 		RequiredOutcomes: []string{"retained"},
 	})
 }
